@@ -37,6 +37,48 @@ def constsFrom : Int → Nat → List Variant → List Int
 
 def consts (vs : List Variant) : List Int := constsFrom 0 0 vs
 
+/-! ### The constants in the representation type
+
+The values above are mathematical integers. The generated constants live in the enum's `repr`
+integer type: `{ const __LAST: repr = <last explicit>; __LAST.wrapping_add(<inc>usize as repr) }`,
+i.e. the cast of `inc` and the addition are both taken modulo the width of the type. -/
+
+/-- The value range of an integer type. -/
+structure Range where
+  lo : Int
+  hi : Int
+  deriving Repr, DecidableEq, Inhabited
+
+def Range.size (r : Range) : Int := r.hi - r.lo + 1
+
+def Range.fits (r : Range) (x : Int) : Bool := r.lo ≤ x && x ≤ r.hi
+
+/-- Two's-complement reduction into the range (`as` casts, `wrapping_add`). -/
+def Range.wrap (r : Range) (x : Int) : Int := (x - r.lo) % r.size + r.lo
+
+def i8 : Range := ⟨-128, 127⟩
+def u8 : Range := ⟨0, 255⟩
+
+/-- The constant as generated: `__LAST.wrapping_add(inc as repr)`. -/
+def constW (r : Range) (last : Int) (inc : Nat) : Int := r.wrap (last + r.wrap inc)
+
+/-- The constant as the pinned tree generated it: `(last) + inc` with `inc` an unsuffixed literal —
+the literal is read modulo the type (no lint fires inside a macro expansion) and the addition is a
+checked constant evaluation: overflow is a compile error (`none`). -/
+def constChecked (r : Range) (last : Int) (inc : Nat) : Option Int :=
+  if r.fits (last + r.wrap inc) then some (last + r.wrap inc) else none
+
+def constsFromW (r : Range) : Int → Nat → List Variant → List Int
+  | _, _, [] => []
+  | last, inc, v :: vs =>
+    let (last', inc') := match v.discr with
+      | some d => (d, 0)
+      | none => (last, inc)
+    constW r last' inc' :: constsFromW r last' (inc' + 1) vs
+
+/-- The generated constants, in the representation type. -/
+def constsW (r : Range) (vs : List Variant) : List Int := constsFromW r 0 0 vs
+
 /-- `match val { C_0 => Ok(V_0), .. , _ => Err(val) }` over the field-less variants, in order:
 the first equal constant wins. Returns the index of the variant. -/
 def tryFromAux : List (Variant × Int) → Nat → Int → Option Nat
